@@ -570,6 +570,33 @@ func (ex *Exec) mapNext(fr *Frame, st *State, x *ssa.Next) Val {
 	v, in := ex.mapGet(st, m, k.L)
 	ex.assume(st, Implies(ok, in))
 	ex.assume(st, Implies(ok, Not(Eq(m.Term(), IntC(0)))))
+	// visited set of this iteration: every key is produced at most once, and the iteration ends only when
+	// every key still in the map has been produced (no insertions during the iteration are assumed)
+	mi := mapKeys(mt)
+	vkey := "R:" + mi.dom
+	vArr := st.get(vkey, mi.domSort())
+	vIn := Select(vArr, m.Term())
+	ex.assume(st, Implies(ok, Not(selectN(vIn, k.L))))
+	st.set(vkey, Store(vArr, m.Term(), Ite(ok, storeN(vIn, k.L, True), vIn)))
+	{
+		var bs, ks []*Term
+		for i, srt := range mi.ks {
+			b := BoundVar(fmt.Sprintf("vk%d", i), srt)
+			bs = append(bs, b)
+			ks = append(ks, b)
+		}
+		domNow := Select(st.get(mi.dom, mi.domSort()), m.Term())
+		ex.assume(st, Implies(Not(ok), Forall(bs, Implies(selectN(domNow, ks), selectN(vIn, ks)))))
+		// count of produced keys; if the map was not modified since the iteration started, the iteration ends after len(m) keys
+		cArr := st.get("RC:"+mi.dom, ArrS(IntS, BVS(64)))
+		cnt := Select(cArr, m.Term())
+		st.set("RC:"+mi.dom, Store(cArr, m.Term(), Ite(ok, BVBin("bvadd", cnt, BVI(1, 64)), cnt)))
+		if Select(st.get("RD:"+mi.dom, mi.domSort()), m.Term()) == domNow {
+			ln := Select(st.get(mi.ln, ArrS(IntS, BVS(64))), m.Term())
+			ex.assume(st, Implies(Not(ok), Eq(cnt, ln)))
+			ex.assume(st, Implies(ok, BVCmp("bvslt", cnt, ln)))
+		}
+	}
 	ex.refFacts(st, v)
 	r := Val{T: x.Type(), L: []*Term{ok}}
 	tup := x.Type().(*types.Tuple)
